@@ -246,7 +246,12 @@ class Ctx:
             "wall_s": round(wall, 2),
             "violations": nviol,
         }
-        path = os.path.join(VERIF, "evidence", "%s.json" % self.prop)
+        # evidence/<id>.json describes runs against /repo itself; a run against another tree
+        # (VERIF_REPO=..., used to try seeded changes) must not overwrite it
+        evdir = os.environ.get("VERIF_EVIDENCE_DIR") or (
+            os.path.join(VERIF, "evidence") if REPO == "/repo" else os.path.join(VERIF, ".cache", "evidence-other-tree"))
+        os.makedirs(evdir, exist_ok=True)
+        path = os.path.join(evdir, "%s.json" % self.prop)
         with open(path, "w") as f:
             json.dump(ev, f, indent=1, sort_keys=True, default=str)
             f.write("\n")
